@@ -59,6 +59,10 @@ type Contract struct {
 	// PureParams: function-typed parameters whose calls are assumed effect-free
 	// (arbitrary result, no heap effect): callbacks such as recordAt(i)
 	PureParams []string
+	// Scope: for a contract about a function of a package outside /repo (declared after a
+	// `package` directive), the /repo package whose contract file declares it; such contracts
+	// apply only while functions of that package are verified
+	Scope string
 }
 
 // AllowedCalls: the complete list of callees the function body may call.
@@ -132,6 +136,7 @@ func newContractSet() *ContractSet {
 
 // loadContractFile parses one contract file for package pkgPath.
 func (cs *ContractSet) loadContractFile(path, pkgPath string) error {
+	filePkg := pkgPath
 	data, err := os.ReadFile(path)
 	if err != nil {
 		return err
@@ -196,6 +201,10 @@ func (cs *ContractSet) loadContractFile(path, pkgPath string) error {
 				cur.Params = params
 			}
 			full := pkgPath + "." + cur.Key
+			if pkgPath != filePkg {
+				cur.Scope = filePkg
+				full += "@" + filePkg
+			}
 			if _, dup := cs.Funcs[full]; dup {
 				return fmt.Errorf("%s:%d: duplicate contract for %s", path, st.line, full)
 			}
